@@ -141,3 +141,29 @@ func (v *VerifEventHandlerStore) List(event string) (on, once []uintptr) {
 	}
 	return
 }
+
+// Public-API paths into the registries: operations go through the exported
+// methods of *Namespace, the state is read back here.
+
+func codePtrs[T any](hs []*T) []uintptr {
+	out := make([]uintptr, len(hs))
+	for i, h := range hs {
+		out[i] = reflect.ValueOf(*h).Pointer()
+	}
+	return out
+}
+
+func VerifNamespaceConnectionHandlers(n *Namespace) (subs, on, once []uintptr) {
+	s := n.connectionHandlers
+	s.mu.Lock()
+	defer s.mu.Unlock()
+	return codePtrs(s.subs), codePtrs(s.funcs), codePtrs(s.funcsOnce)
+}
+
+func VerifNamespaceFireConnection(n *Namespace) []uintptr {
+	return codePtrs(n.connectionHandlers.getAll())
+}
+
+func VerifNamespaceEventStore(n *Namespace) *VerifEventHandlerStore {
+	return &VerifEventHandlerStore{s: n.eventHandlers}
+}
